@@ -70,7 +70,7 @@ var props = map[string]propSpec{
 	"C15": {level: "fault_enumeration", quickRuns: 2000, thoroughRuns: 40000, runLimit: 30 * time.Second,
 		requiredProbes: []string{"startup-fault:none", "startup-fault:ckpt-above-high", "startup-fault:load-error", "startup-fault:load-silent", "startup-fault:seqnos-error", "startup-fault:flog-error", "startup-fault:sreq-error", "startup-fault:sreq-silent", "startup-fault:bad-membership", "startup-fault:bad-metadata", "startup-fault:file-read-error", "ckpt-above-high:vb-missing-in-seqno-reply"}},
 	"C12": {scenarios: []string{"C12", "C12", "C12", "C12r"}, level: "exploration", quickRuns: 2500, thoroughRuns: 60000, runLimit: 30 * time.Second,
-		requiredProbes: []string{"transient-end", "final-end", "reopened-after-transient-end", "repeated-transient-end-same-vb", "client-stopped-after-last-final-end", "finite-completion", "active-streams-judged", "end-cause:socket-closed", "five-reopen-failures", "finite-completion-after-rebalance", "reopened-after-transient-end:filtered-stream"}},
+		requiredProbes: []string{"transient-end", "final-end", "reopened-after-transient-end", "repeated-transient-end-same-vb", "client-stopped-after-last-final-end", "finite-completion", "active-streams-judged", "end-cause:socket-closed", "five-reopen-failures", "finite-completion-after-rebalance", "reopened-after-transient-end:filtered-stream", "reopened-after-transient-end:after-a-rebalance"}},
 	"C07": {level: "exploration", quickRuns: 3500, thoroughRuns: 50000, runLimit: 30 * time.Second,
 		requiredProbes: []string{"event-arrived-before-its-coverage", "event-waited-at-the-gate", "wake-up-judged", "threshold-gauge-judged", "close-with-rollback-mitigation"}},
 	"C19": {level: "fault_enumeration", quickRuns: 4000, thoroughRuns: 100000, runLimit: 20 * time.Second,
